@@ -86,7 +86,7 @@ T_Backend ==
   \/ IsEvent("auth.call") /\ AuthCall(C)
   \/ IsEvent("auth.ret") /\ AuthRet(C, E.ok, E.err)
   \/ IsEvent("setup.call") /\ SetupCall(C, E.cid, E.clean)
-  \/ IsEvent("setup.ret") /\ (IF E.err = "" THEN SetupRet(C, E.resumed, E.s) ELSE SetupFail(C))
+  \/ IsEvent("setup.ret") /\ (IF E.err = "" THEN SetupRet(C, E.resumed, E.s) ELSE SetupFail(C, E.err))
   \/ IsEvent("restore") /\ Restore(C, E.err)
   \/ IsEvent("sub.call") /\ SubCall(C, E.subs)
   \/ IsEvent("sub.ack") /\ SubAck(C)
